@@ -969,7 +969,8 @@ Proof.
     + rewrite Hko. rewrite <- (insert_at_app_l r k (leaf_keys l) 8 Hr8) in Hsorted.
       apply sorted_app_iff in Hsorted. apply Hsorted.
     + eexists. eexists. eexists. eexists. split; [reflexivity|].
-      apply split_finish; try assumption.
+      apply split_finish;
+        [exact Hwf|exact Hc|exact Hn| |exact Hi2|exact Hwn|exact Hido|reflexivity| | |].
       * rewrite Hi1, Heo, Hen. apply insert_at_app_l. exact Hr8.
       * rewrite Hi1, insert_at_length; rewrite Heo, firstn_length; lia.
       * rewrite Hen, skipn_length. lia.
@@ -1001,8 +1002,177 @@ Proof.
         assert (get_empty_slot (lf_perm new) = 0%N) as -> by lia.
         cbn [lf_perm new]. rewrite split_dest7_list. left. reflexivity. }
       rewrite Hsep.
-      apply split_finish; try assumption.
+      apply split_finish;
+        [exact Hwf|exact Hc|exact Hn| |exact Hwo|exact Hi2|exact Hido|reflexivity| | |exact Hhd2].
       * rewrite Hi1, Heo, Hen. apply insert_at_app_r. lia.
       * rewrite Heo, firstn_length. lia.
       * rewrite Hi1, insert_at_length; rewrite Hen, skipn_length; lia.
 Qed.
+
+(** ** 7b. frame facts: [slot_at] after a slot write, in-place overwrite of an entry *)
+Lemma slot_at_set_nth l v p i x j :
+  slot_at (leaf_with l v p (set_nth (N.to_nat i) x (lf_slots l))) j =
+    if (j =? i)%N && (N.to_nat i <? length (lf_slots l))%nat then x else slot_at l j.
+Proof.
+  unfold slot_at. rewrite leaf_with_slots, nth_set_nth.
+  destruct (N.eqb_spec j i) as [->|Hne].
+  - rewrite Nat.eqb_refl. reflexivity.
+  - destruct (Nat.eqb_spec (N.to_nat j) (N.to_nat i)); [lia|]. reflexivity.
+Qed.
+
+Lemma slot_at_with_ver l v j : slot_at (leaf_with l v (lf_perm l) (lf_slots l)) j = slot_at l j.
+Proof. reflexivity. Qed.
+
+Lemma leaf_ranked_with_ver l v : leaf_ranked (leaf_with l v (lf_perm l) (lf_slots l)) = leaf_ranked l.
+Proof. reflexivity. Qed.
+
+Lemma leaf_lookup_with_ver l v k : leaf_lookup (leaf_with l v (lf_perm l) (lf_slots l)) k = leaf_lookup l k.
+Proof. reflexivity. Qed.
+
+Lemma leaf_rank_with_ver l v k : leaf_rank (leaf_with l v (lf_perm l) (lf_slots l)) k = leaf_rank l k.
+Proof. reflexivity. Qed.
+
+Lemma map_set_nth {A B} (f : A -> B) n x l : map f (set_nth n x l) = set_nth n (f x) (map f l).
+Proof.
+  revert n. induction l as [|a l IH]; intros [|n]; cbn [set_nth map]; try reflexivity.
+  rewrite IH. reflexivity.
+Qed.
+
+Lemma set_nth_same {A} n (x : A) l : nth_error l n = Some x -> set_nth n x l = l.
+Proof.
+  revert n. induction l as [|a l IH]; intros [|n] H; cbn [set_nth nth_error] in *; try discriminate.
+  - injection H as ->. reflexivity.
+  - rewrite IH by exact H. reflexivity.
+Qed.
+
+Lemma Forall_set_nth {A} (P : A -> Prop) n x l : Forall P l -> P x -> Forall P (set_nth n x l).
+Proof.
+  intros Hl Hx. revert n. induction Hl as [|a l Ha Hl IH]; intros [|n]; cbn [set_nth];
+    try constructor; auto.
+Qed.
+
+Lemma ents_overwrite p sl r x :
+  NoDup p -> (r < length p)%nat -> (N.to_nat (nth r p 0%N) < length sl)%nat ->
+  ents p (set_nth (N.to_nat (nth r p 0%N)) x sl) = set_nth r x (ents p sl).
+Proof.
+  intros Hnd Hr Hs. apply (list_ext_nth empty_slot).
+  - rewrite set_nth_length, !ents_length. reflexivity.
+  - intros i Hi. rewrite ents_length in Hi.
+    rewrite ents_nth by exact Hi. rewrite !nth_set_nth, ents_length.
+    destruct (Nat.ltb_spec (N.to_nat (nth r p 0%N)) (length sl)); [|lia].
+    destruct (Nat.ltb_spec r (length p)); [|lia].
+    rewrite !andb_true_r.
+    destruct (Nat.eqb_spec i r) as [->|Hne].
+    + rewrite Nat.eqb_refl. reflexivity.
+    + destruct (Nat.eqb_spec (N.to_nat (nth i p 0%N)) (N.to_nat (nth r p 0%N))) as [E|_].
+      * exfalso. apply Hne. rewrite (NoDup_nth p 0%N) in Hnd. apply Hnd; [exact Hi|exact Hr|lia].
+      * rewrite ents_nth by exact Hi. reflexivity.
+Qed.
+
+(** overwriting the value word of a stored entry (put on an existing key) *)
+Theorem leaf_overwrite_spec l v rank slot s x :
+  WF_leaf l -> nth_error (leaf_ranked l) rank = Some (slot, s) ->
+  sl_key x = sl_key s -> entry_ok x ->
+  leaf_entries (leaf_with l v (lf_perm l) (set_nth (N.to_nat slot) x (lf_slots l))) =
+    set_nth rank x (leaf_entries l) /\
+  leaf_keys (leaf_with l v (lf_perm l) (set_nth (N.to_nat slot) x (lf_slots l))) = leaf_keys l /\
+  WF_leaf (leaf_with l v (lf_perm l) (set_nth (N.to_nat slot) x (lf_slots l))).
+Proof.
+  intros (Hv & Hlen & Hall & Hs) Hr Hkey Hok.
+  pose proof (leaf_ranked_entries l rank slot s Hr) as Hre.
+  apply leaf_ranked_nth_error in Hr. destruct Hr as [Hr _].
+  assert (rank < length (perm_list (lf_perm l)))%nat as Hlt
+    by (apply nth_error_Some; congruence).
+  assert (nth rank (perm_list (lf_perm l)) 0%N = slot) as Hslot
+    by (apply nth_error_nth; exact Hr).
+  pose proof Hv as (_ & _ & Hnd & Hf15).
+  assert (slot < 15)%N as Hs15.
+  { rewrite Forall_forall in Hf15. apply Hf15. apply nth_error_In with rank. exact Hr. }
+  set (l' := leaf_with l v (lf_perm l) (set_nth (N.to_nat slot) x (lf_slots l))).
+  assert (leaf_entries l' = set_nth rank x (leaf_entries l)) as He.
+  { rewrite !leaf_entries_ents. unfold l'. rewrite leaf_with_perm, leaf_with_slots, <- Hslot.
+    apply ents_overwrite; [exact Hnd|exact Hlt|]. rewrite Hslot. lia. }
+  assert (leaf_keys l' = leaf_keys l) as Hk.
+  { unfold leaf_keys. rewrite He, map_set_nth. apply set_nth_same.
+    rewrite nth_error_map, Hre. cbn [option_map]. rewrite Hkey. reflexivity. }
+  split; [exact He|]. split; [exact Hk|].
+  split; [exact Hv|]. split.
+  { unfold l'. rewrite leaf_with_slots, set_nth_length. exact Hlen. }
+  split.
+  - rewrite He. apply Forall_set_nth; assumption.
+  - rewrite Hk. exact Hs.
+Qed.
+
+(** key-level corollary of a split *)
+Corollary split_post_keys l k lv nid L sep R info :
+  split_post l k lv nid L sep R info ->
+  leaf_keys L ++ leaf_keys R = insert_at (leaf_rank l k) k (leaf_keys l).
+Proof.
+  intros (He & _). unfold leaf_keys. rewrite <- map_app, He, map_insert_at. reflexivity.
+Qed.
+
+(** ** sanity: the hypotheses are satisfiable on a full leaf, and the split
+    theorem's conclusion is what the executable model computes *)
+Module LeafExample.
+  Local Open Scope N_scope.
+  Definition kk (i : N) : ktuple := {| ks := 1000 * i; kl := 8 |}.
+  Definition vv (i : N) : lvw := LValue {| v_id := i; v_bytes := []; v_align := 8; v_inline := false |}.
+  Definition put1 (l : leaf) (i : N) : leaf :=
+    match fst (leaf_put l (kk i) (vv i) 99) with IOne (BLeaf l') => l' | _ => l end.
+  Definition l0 : leaf := single_leaf 1 (kk 8) (vv 8).
+  Definition l15 : leaf :=
+    fold_left put1 [3; 12; 1; 15; 7; 10; 2; 14; 5; 9; 4; 13; 6; 11] l0.
+
+  Example l15_full : leaf_cnk l15 = 15 /\ map ks (leaf_keys l15) = map (fun i => 1000 * N.of_nat i) (seq 1 15).
+  Proof. vm_compute. split; reflexivity. Qed.
+
+  Example l15_WF : WF_leaf l15.
+  Proof.
+    split; [apply perm_validb_sound; vm_compute; reflexivity|].
+    split; [vm_compute; reflexivity|]. split.
+    - let e := eval vm_compute in (leaf_entries l15) in change (leaf_entries l15) with e.
+      repeat (apply Forall_cons; [split; [vm_compute; reflexivity|cbn [sl_lv sl_key kl]; lia]|]).
+      apply Forall_nil.
+    - let e := eval vm_compute in (leaf_keys l15) in change (leaf_keys l15) with e.
+      repeat constructor.
+  Qed.
+
+  Example l15_split_applies :
+    exists L sep R info,
+      leaf_put l15 {| ks := 4500; kl := 9 |} LLink 77 = (ISplit (BLeaf L) sep (BLeaf R), info) /\
+      split_post l15 {| ks := 4500; kl := 9 |} LLink 77 L sep R info.
+  Proof.
+    apply leaf_put_split.
+    - exact l15_WF.
+    - vm_compute. reflexivity.
+    - vm_compute. reflexivity.
+    - let e := eval vm_compute in (leaf_keys l15) in change (leaf_keys l15) with e.
+      cbn [In]. intros H. repeat (destruct H as [H|H]; [discriminate H|]). exact H.
+    - split; [vm_compute; reflexivity|reflexivity].
+  Qed.
+
+  (* the model's actual output on that input: 5 entries go left of the new key *)
+  Example l15_split_computed :
+    match fst (leaf_put l15 {| ks := 4500; kl := 9 |} LLink 77) with
+    | ISplit (BLeaf L) sep (BLeaf R) =>
+      (map ks (leaf_keys L), ks sep, map ks (leaf_keys R), lf_id R)
+    | _ => ([], 0, [], 0)
+    end = ([1000; 2000; 3000; 4000; 4500; 5000; 6000; 7000; 8000], 9000,
+           [9000; 10000; 11000; 12000; 13000; 14000; 15000], 77).
+  Proof. vm_compute. reflexivity. Qed.
+End LeafExample.
+
+(** ** axiom audit *)
+Print Assumptions leaf_lookup_some.
+Print Assumptions leaf_lookup_none.
+Print Assumptions leaf_lookup_found.
+Print Assumptions leaf_lookup_in.
+Print Assumptions leaf_rank_spec.
+Print Assumptions leaf_rank_sorted.
+Print Assumptions leaf_insert_at_spec.
+Print Assumptions leaf_put_nosplit.
+Print Assumptions leaf_put_split.
+Print Assumptions leaf_delete_spec.
+Print Assumptions leaf_overwrite_spec.
+Print Assumptions single_leaf_spec.
+Print Assumptions empty_tree_leaf_spec.
